@@ -44,6 +44,9 @@ func NewRegexpStringSearcher(ctx context.Context, indexReader index.IndexReader,
 		if err != nil {
 			return nil, err
 		}
+		// a term matches only as a whole: prefer the longest match starting
+		// at the leftmost position over the leftmost-first one
+		r.Longest()
 
 		return NewRegexpSearcher(ctx, indexReader, r, field, boost, options)
 	}
